@@ -39,6 +39,7 @@ from mashumaro.core.meta.helpers import (
     get_literal_values,
     get_name_error_name,
     get_type_annotations,
+    get_type_var_default,
     hash_type_args,
     is_annotated,
     is_class_var,
@@ -57,6 +58,7 @@ from mashumaro.core.meta.helpers import (
     resolve_type_params,
     substitute_type_params,
     type_name,
+    type_var_has_default,
 )
 from mashumaro.core.meta.types.common import (
     FieldContext,
@@ -234,13 +236,24 @@ class CodeBuilder:
 
         if is_local_type_name(field_type):
             field_type = clean_id(field_type)
-            while (
-                resolved_type_params
-                and is_type_var(typ)
-                and resolved_type_params.get(typ, typ) is not typ
-            ):
-                # the name rendered above is the one of the resolved type
-                typ = resolved_type_params[typ]  # type: ignore
+            # the name rendered above is the one of the type behind
+            # Annotated and type variables, so that type is to be bound
+            while True:
+                if is_annotated(typ):
+                    typ = get_args(typ)[0]
+                elif not is_type_var(typ):
+                    break
+                elif (
+                    resolved_type_params
+                    and resolved_type_params.get(typ, typ) is not typ
+                ):
+                    typ = resolved_type_params[typ]  # type: ignore
+                elif is_type_var_any(typ) or getattr(typ, "__constraints__"):
+                    break
+                elif type_var_has_default(typ):
+                    typ = get_type_var_default(typ)
+                else:
+                    typ = typ.__bound__  # type: ignore
             self.ensure_object_imported(typ, field_type)
 
         return field_type
